@@ -1006,6 +1006,7 @@ impl Entity {
     ///
     pub fn update(&mut self, mut new_entity: Entity) -> Result<(), Error> {
         self.deprecated = new_entity.deprecated;
+        self.enable_full_text = new_entity.enable_full_text;
         for field in &mut self.fields {
             let new_field_opt = new_entity.fields.remove(field.0);
             match new_field_opt {
